@@ -440,6 +440,7 @@ func runC11(w *World, r *Report) {
 	c11RuleN(w, r, subjects)
 	c11RuleD(w, r, subjects)
 	c11RuleH(w, r, subjects)
+	c11RuleK(w, r, subjects, derefs)
 	c11RuleL(w, r, subjects, derefs)
 	collectorRules(w, r, "", "C11/L-collector")
 	r.assume("generated accessors are pure getters over a tree that subject code never mutates (checked: no AddChild/Set*/RemoveLastChild call)")
@@ -999,6 +1000,7 @@ func c11RuleG(w *World, r *Report) {
 		var calls []inlinedCall
 		collectInlined(fn, nil, within, bindings{}, 0, &calls)
 		installed := map[string]bool{}
+		conditional := map[string]string{}
 		for _, ic := range calls {
 			f := ic.call.Common().StaticCallee()
 			var recvArg, lstArg ssa.Value
@@ -1056,6 +1058,35 @@ func c11RuleG(w *World, r *Report) {
 				continue
 			}
 			l := stripIdentity(resolveParam(lstArg, ic.bs))
+			before := installed[kind]
+			checkCond := func(kind string, call ssa.CallInstruction) {
+				// the installation is not left to a condition: the only branches it may depend on are the ok edge of a checked
+				// assertion (getting at the concrete recogniser), `err == nil` and a non-nil test
+				if !installed[kind] || before {
+					return
+				}
+				cd := computeCD(call.Parent())
+				for _, d := range cd.allCtrl(call.Block()) {
+					cond := branchCond(d.Branch)
+					if cond == nil {
+						continue
+					}
+					if ex, ok := cond.(*ssa.Extract); ok && ex.Index == 1 && d.Succ == 0 {
+						if ta, ok := ex.Tuple.(*ssa.TypeAssert); ok && ta.CommaOk {
+							continue
+						}
+					}
+					if v, nn, ok := nilTest(cond); ok {
+						if isErrorType(v.Type()) && d.Succ == 1-nn {
+							continue
+						}
+						if !isErrorType(v.Type()) && d.Succ == nn {
+							continue
+						}
+					}
+					conditional[kind] = w.instrPos(d.Branch.Instrs[len(d.Branch.Instrs)-1])
+				}
+			}
 			for gl := range gateListeners {
 				if stripIdentity(gl) == l || (cellOf(gl) != nil && cellOf(gl) == cellOf(l)) {
 					installed[kind] = true
@@ -1075,10 +1106,13 @@ func c11RuleG(w *World, r *Report) {
 					}
 				}
 			}
+			checkCond(kind, ic.call)
 		}
 		for _, kind := range []string{"lexer", "parser"} {
 			key := fmt.Sprintf("%s: collecting listener installed on the %s", name, kind)
-			if installed[kind] {
+			if installed[kind] && conditional[kind] != "" {
+				r.fail(rule, key, conditional[kind], "the listener whose HasErrors() gates the visit is added to the "+kind+" only under the condition at "+conditional[kind]+": when it does not hold, the "+kind+"'s errors go to the console listener only and the input is treated as valid")
+			} else if installed[kind] {
 				r.pass(rule, key, w.pos(fn.Pos()), "")
 			} else {
 				r.fail(rule, key, w.pos(fn.Pos()), "the listener whose HasErrors() gates the visit is never added to the "+kind+": its errors go to the console listener only and the input is treated as valid")
